@@ -76,6 +76,12 @@ def generate(tier, seed):
     for sh in shells:
         for t in tails:
             texts.append(sh % t)
+    plists = ["(&rest)", "(&optional)", "(&optional &rest)", "(&rest &optional)", "(a &rest)", "(a &optional)", "(&rest &rest)", "(&rest a b)", "(&optional &optional a)", "(&rest a &rest b)",
+              "(a &optional b &rest)", "(&rest . a)", "(a . &rest)", "(&rest (a))", "(&rest 1)", "(&optional nil)", "(nil)", "(t)", "(:k)", "(a a)", "((a))", "(\"s\")", "(1)", "(&rest a)", "(&optional a)",
+              "nil", "()", "a", "5", "(a &rest b)", "(&foo a)", "(&optional . a)"]
+    for pl in plists:
+        for sh in ["(defun f %s 1)", "(defmacro m %s 1)", "(defun f %s)", "'(defun f %s 1)", "(list (defun f %s 1", "(lambda %s 1)", "(defun f %s (f))", "(defmacro m %s) (m)", "(defun f %s 1) (f 1 2)"]:
+            texts.append(sh % pl)
     progs = example_texts()
     step = 1 if tier == "thorough" else 3
     for p in progs:
